@@ -86,13 +86,44 @@ const (
 // kind says what the "call" / "callgrow" tokens call: "local" functions of the module, "host" functions imported from env
 // (the growing one uses api.Memory.Grow on the caller's memory) or "reenter": host functions that call back exports of the guest.
 func build(p *program, minPages, maxPages uint32, consts *[2]uint32, kind string) []byte {
+	return buildOpt(p, minPages, maxPages, consts, kind, bopt{})
+}
+
+// bopt: further dimensions of MemAccessMC (Provenances, MemKinds).
+//
+//	narrow[i]: address local i is produced INSIDE the function by a sign-extending 16-bit load from a scratch cell (the
+//	           host puts the address there before the call, the prologue restores the cell's pattern bytes): a 32-bit value
+//	           made by a narrow sign extension - what is in the upper half of its register is the compiler's business
+//	impMem:    the memory is defined by another module ("owner") and imported
+type bopt struct {
+	narrow [2]bool
+	impMem bool
+}
+
+var narrowCell = [2]uint32{32, 40}
+
+// narrowable: the address is the sign extension of its low 16 bits.
+func narrowable(a uint32) bool { return uint32(int32(int16(uint16(a)))) == a }
+
+// ownerModule defines and exports the memory for the impMem variants.
+func ownerModule(minPages, maxPages uint32) []byte {
+	m := wb.New()
+	m.Memory(minPages, &maxPages, "mem")
+	return m.Build()
+}
+
+func buildOpt(p *program, minPages, maxPages uint32, consts *[2]uint32, kind string, o bopt) []byte {
 	m := wb.New()
 	var hnop, hgrow uint32
 	if kind != "local" {
 		hnop = m.ImportFunc("env", kind+"_nop", nil, nil)
 		hgrow = m.ImportFunc("env", kind+"_grow", nil, nil)
 	}
-	m.Memory(minPages, &maxPages, "mem")
+	if o.impMem {
+		m.ImportMemory("owner", "mem", minPages, &maxPages)
+	} else {
+		m.Memory(minPages, &maxPages, "mem")
+	}
 	nop := m.AddFunc(wb.Func{Export: "nopf"})
 	grower := m.AddFunc(wb.Func{Body: wb.Cat(wb.I32Const(int32(p.Scale)), wasm.OpcodeMemoryGrow, 0, wasm.OpcodeDrop), Export: "grow1"})
 	if kind != "local" {
@@ -101,6 +132,14 @@ func build(p *program, minPages, maxPages uint32, consts *[2]uint32, kind string
 	var b []byte
 	if consts != nil {
 		b = append(b, wb.Cat(wb.I32Const(int32(consts[0])), wb.LocalSet(locP0), wb.I32Const(int32(consts[1])), wb.LocalSet(locP1))...)
+	}
+	for i, on := range o.narrow {
+		if on {
+			c := narrowCell[i]
+			restore := int32(pat(int64(c))) | int32(pat(int64(c)+1))<<8
+			b = append(b, wb.Cat(wb.I32Const(int32(c)), wasm.OpcodeI32Load16S, wb.MemArg(1, 0), wb.LocalSet(uint32(i)),
+				wb.I32Const(int32(c)), wb.I32Const(restore), wasm.OpcodeI32Store16, wb.MemArg(1, 0))...)
+		}
 	}
 	depth := 0
 	var loopDepth []int
@@ -220,7 +259,7 @@ func execute(res *common.Result, p *program, r *run, rt wazero.Runtime, cm wazer
 	if tmp.OK {
 		return
 	}
-	if engine == "compiler" {
+	if engine == "compiler" && !strings.Contains(prov, "impmem") { // an imported memory's length is read correctly
 		// the defect makes the guest see length 0 once the memory is 65536 pages long: the first access after that whose bounds
 		// check is not elided traps. Which one that is depends on bounds-check elimination, so every access executed at that
 		// size is a candidate; everything before it must match the reference.
@@ -265,6 +304,14 @@ func executeRef(res *common.Result, p *program, r *run, rt wazero.Runtime, cm wa
 	}
 	desc := fmt.Sprintf("%s/%s/%s size=%d pages v0=%d v1=%d c=%d prog=%s", engine, alloc, prov, int64(r.Inp.S)*int64(p.Scale),
 		abs(p, r.Inp.V0u, r.Inp.V0d), abs(p, r.Inp.V1u, r.Inp.V1d), r.Inp.C, progString(p))
+	if strings.Contains(prov, "impmem") { // the memory's owner first (same limits), under the same allocator
+		owner, err := rt.InstantiateWithConfig(ictx, ownerModule(uint32(r.Inp.S*p.Scale), maxPagesOf(p, r.Inp.S)), wazero.NewModuleConfig().WithName("owner"))
+		if err != nil {
+			res.AddFail(key("instantiate-owner"), desc+": "+err.Error())
+			return
+		}
+		defer owner.Close(ctx)
+	}
 	mod, err := rt.InstantiateModule(ictx, cm, wazero.NewModuleConfig().WithName(""))
 	if err != nil {
 		res.AddFail(key("instantiate"), desc+": "+err.Error())
@@ -336,6 +383,14 @@ func executeRef(res *common.Result, p *program, r *run, rt wazero.Runtime, cm wa
 	}
 	// run
 	args := []uint64{uint64(uint32(abs(p, r.Inp.V0u, r.Inp.V0d))), uint64(uint32(abs(p, r.Inp.V1u, r.Inp.V1d))), uint64(r.Inp.C)}
+	if strings.Contains(prov, "narrow") { // the prologue loads the narrowable addresses from the scratch cells and restores the cells
+		for i := 0; i < 2; i++ {
+			if a := uint32(args[i]); narrowable(a) {
+				mem.WriteUint16Le(narrowCell[i], uint16(a))
+				args[i] = 0x5a5a5a5a // the parameter is dead in this variant
+			}
+		}
+	}
 	out, err := mod.ExportedFunction("f").Call(ctx, args...)
 	trapped := err != nil
 	if trapped && !strings.Contains(err.Error(), "out of bounds memory access") {
@@ -495,6 +550,35 @@ func runProgram(id int, raw json.RawMessage) common.Result {
 					for _, alloc := range allocs { // the default allocator moves the buffer when it grows: a stale base shows there
 						execute(&res, &p, r, rt, kcm, engine, alloc, "param-"+kind+"-callee")
 					}
+				}
+			}
+			// further provenances and memory kinds (MemAccessMC!Provenances, MemKinds): addresses made by a narrow sign-extending
+			// load inside the function, and the memory imported from its owner; under the guard allocator
+			a0, a1 := uint32(abs(&p, r.Inp.V0u, r.Inp.V0d)), uint32(abs(&p, r.Inp.V1u, r.Inp.V1d))
+			mask := [2]bool{narrowable(a0), narrowable(a1)}
+			if r.Inp.S >= 1 && (p.Scale > 1 || i%3 == id%3) {
+				for _, v := range []struct {
+					name string
+					o    bopt
+				}{{"narrow", bopt{narrow: mask}}, {"param-impmem", bopt{impMem: true}}, {"narrow-impmem", bopt{narrow: mask, impMem: true}}} {
+					if strings.HasPrefix(v.name, "narrow") && !mask[0] && !mask[1] {
+						continue
+					}
+					if v.name == "narrow" && r.Inp.S*p.Scale >= 65536 {
+						continue // an own memory of 65536 pages: every access of the compiler traps (listed finding), the prologue's too
+					}
+					k := fmt.Sprint(v.name, r.Inp.S, v.o.narrow)
+					vcm := kcms[k]
+					if vcm == nil {
+						var err error
+						vcm, err = rt.CompileModule(ctx, buildOpt(&p, uint32(r.Inp.S*p.Scale), maxPagesOf(&p, r.Inp.S), nil, "local", v.o))
+						if err != nil {
+							res.AddFail("engine="+engine+";compile", "generated program rejected: "+err.Error()+" "+progString(&p))
+							break
+						}
+						kcms[k] = vcm
+					}
+					execute(&res, &p, r, rt, vcm, engine, "guard", v.name)
 				}
 			}
 			if p.Const && (i%5 == id%5 || r.Inp.V0u*p.Scale >= 32768) {
